@@ -236,6 +236,43 @@ func genGuards() {
 			Params: []string{"read", "readDecoded", "minLen"}, Map: ids(map[string]string{"f.bitmapLength": "minLen"}, "read")},
 	)
 	genGuardFile("GuardsReturns.lean", rets)
+	genAlloc()
+}
+
+// genAlloc: Gen/GuardsAlloc.lean — the buffers the decoding functions allocate, with the checks that precede them
+func genAlloc() {
+	dec := func(name, file, recv, dataName string) guardSite {
+		return guardSite{Name: name + "_DecodeA", Makes: true, Sig: []string{"e", dataName, "length"}, File: file, Recv: recv, Func: "Decode",
+			Params: []string{"length", "dlen", "n", "r"},
+			Map:    ids(map[string]string{"len(" + dataName + ")": "dlen"}, "length", "n", "r")}
+	}
+	pre := func(name, file, recv, defBy string) guardSite {
+		return guardSite{Name: name + "_DecodeLengthA", Makes: true, Sig: []string{"p", "maxLen", "data"},
+			DefBy: map[string]string{defBy: "dataLen"}, File: file, Recv: recv, Func: "DecodeLength",
+			Params: []string{"maxLen", "dlen", "digits", "dataLen"},
+			Map:    ids(map[string]string{"p.Digits": "digits", "p.digits": "digits", "len(data)": "dlen", "len(prefBytes)": "digits"}, "maxLen", "dataLen")}
+	}
+	sites := []guardSite{
+		dec("ascii", "encoding/ascii.go", "asciiEncoder", "data"),
+		dec("binary", "encoding/binary.go", "binaryEncoder", "data"),
+		dec("bcd", "encoding/bcd.go", "bcdEncoder", "src"),
+		dec("lbcd", "encoding/lbcd.go", "lBCDEncoder", "src"),
+		dec("bytesToHex", "encoding/hex.go", "hexToASCIIEncoder", "data"),
+		dec("hexToBytes", "encoding/hex.go", "asciiToHexEncoder", "data"),
+		dec("ebcdic", "encoding/ebcdic.go", "ebcdicEncoder", "src"),
+		dec("ebcdic1047", "encoding/ebcdic1047.go", "ebcdic1047Encoder", "data"),
+		pre("ascii", "prefix/ascii.go", "asciiVarPrefixer", "strconv.Atoi"),
+		pre("ebcdic", "prefix/ebcdic.go", "ebcdicVarPrefixer", "strconv.Atoi"),
+		pre("ebcdic1047", "prefix/ebcdic1047.go", "ebcdic1047Prefixer", "strconv.Atoi"),
+		pre("bcd", "prefix/bcd.go", "bcdVarPrefixer", "strconv.Atoi"),
+		pre("binary", "prefix/binary.go", "binaryVarPrefixer", "bytesToInt"),
+		pre("hex", "prefix/hex.go", "hexVarPrefixer", "strconv.ParseUint"),
+		{Name: "ber_DecodeLengthA", Makes: true, Sig: []string{"p", "maxLen", "data"}, File: "prefix/bertlv.go", Recv: "berTLVPrefixer", Func: "DecodeLength",
+			Params: []string{"maxLen", "firstByte", "v"},
+			Map: ids(map[string]string{"bits.LeadingZeros8(firstByte)>0": "decide (firstByte < 128)", "clearMSB(firstByte)": "(firstByte % 128)", "len(length)": "(firstByte % 128)",
+				"bigLen.IsInt64()": "decide (v ≤ 9223372036854775807)", "bigLen.Int64()": "v"}, "maxLen", "firstByte")},
+	}
+	genGuardFile("GuardsAlloc.lean", sites)
 }
 
 func merge(a, b map[string]string) map[string]string {
